@@ -70,7 +70,7 @@ def gen(R, tier):
     if R.chance(0.5):
         for i in range(len(m.atoms)):
             if R.chance(0.4):
-                weights[i] = R.choice(['0.5', '2', '0.25', '3'])
+                weights[i] = R.choice(['0.5', '2', '0.25', '3', '0', '0'])
     if shared:
         s, info = molgen.build_shared(R, m, owner, share=0.7, style=molgen.style_draw(R), feats=feats)
         weights = {}
@@ -228,7 +228,8 @@ def oracle(case):
         for n in g3.nodes:
             g3.nodes[n]['position'] = np.array([rnd.uniform(-50, 50), rnd.uniform(-50, 50), rnd.uniform(-50, 50)])
         cgc = cg.copy()
-        sut(forward_map_molecule, cgc, g3)
+        with np.errstate(all='ignore'):
+            sut(forward_map_molecule, cgc, g3)
         first = {}
         for k in cgc.nodes:
             fg = cg.nodes[k].get('graph')
@@ -245,7 +246,8 @@ def oracle(case):
             first[k] = np.array(p)
         for n in g3.nodes:
             g3.nodes[n]['position'] = g3.nodes[n]['position'] + t
-        sut(forward_map_molecule, cgc, g3)
+        with np.errstate(all='ignore'):
+            sut(forward_map_molecule, cgc, g3)
         for k, p0 in first.items():
             p1 = cgc.nodes[k]['position']
             expect(np.allclose(p1 - p0, t, atol=1e-7), 'map:not-translation-equivariant',
